@@ -553,6 +553,26 @@ theorem lazy_init_values (cfg : Cfg) (hcap : cfg.capture = false) (fuel : Nat) (
     ∃ y', (ModuleTree.init cfg fuel p m rngs x').result = .ok (y', V) :=
   Flax.ArgFree.init_argfree cfg hcap fuel p hp m rngs x x' y V h
 
+/-- **`lazy_init_eq_init_shape`, for every filter.**  The model's `init` takes the caller's `mutable` filter; with
+the *same* filter `m`, an init whose argument is abstract (any other argument value `x'`) succeeds exactly like the
+concrete one and returns the same collections, paths and shapes — and, when nothing stored depends on the argument,
+literally the same variables.  So the shape-only entry points called with the caller's filter agree with concrete
+`init` called with that filter, whichever collections the filter selects (the default
+`DenyList('intermediates')`, `True`, a list of names, a `DenyList` that also excludes `'losses'`, …). -/
+theorem lazy_init_eq_init_shape (cfg : Cfg) (fuel : Nat) (p : SProg) (m : LFilter) (rngs : List String)
+    (x x' y : Int) (V : Vars) (h : (ModuleTree.init cfg fuel p m rngs x).result = .ok (y, V)) :
+    (∃ y' V', (ModuleTree.init cfg fuel p m rngs x').result = .ok (y', V') ∧ Vars.abstract V' = Vars.abstract V) ∧
+    (cfg.capture = false → argFree p = true → ∃ y', (ModuleTree.init cfg fuel p m rngs x').result = .ok (y', V)) :=
+  ⟨lazy_init_shapes_partial cfg fuel p m rngs x x' y V h,
+   fun hcap hp => lazy_init_values cfg hcap fuel p hp m rngs x x' y V h⟩
+
+/-- a filter that leaves a collection out makes the model's `init` skip the sow into it: the returned tree differs
+between filters, which is why the shape-only entry points must be given the caller's filter -/
+theorem init_depends_on_filter :
+    ((ModuleTree.init {} 5 (.seq (.sow "losses" "l" (.const 2)) (.ret .arg)) (.deny (.names ["intermediates", "losses"])) ["params"] 1).result.toOption.map (·.2.cols)) = some [] ∧
+    ((ModuleTree.init {} 5 (.seq (.sow "losses" "l" (.const 2)) (.ret .arg)) initDefault ["params"] 1).result.toOption.map (·.2.cols)) = some ["losses"] := by
+  decide +kernel
+
 /-- `argFree` is needed: a variable initialised from the argument differs between arguments -/
 theorem arg_free_needed :
     argFree (.var "stats" "v" [] .arg) = false ∧
